@@ -50,11 +50,18 @@ func runC18(c *Ctx) {
 		}
 		return false
 	}
+	// "basic" is an accepted spelling of "local"
+	spelled := append([]string{}, mechs...)
+	for i, m := range spelled {
+		if m == "local" && c.T.Bool(1, 2) {
+			spelled[i] = "basic"
+		}
+	}
 	cfg := env.BaseConfig()
-	cfg.Authentication = mechs
+	cfg.Authentication = spelled
 	cfg.OmitKeys = map[string]bool{}
 	var d []string
-	d = append(d, "auth="+strings.Join(mechs, "+"))
+	d = append(d, "auth="+strings.Join(spelled, "+"))
 	// TLS
 	tlsOff := c.T.Bool(1, 2) || keyFocus
 	if tlsOff {
@@ -127,9 +134,9 @@ func runC18(c *Ctx) {
 	// some settings given through the environment instead of (or on top of) the file
 	via := c.T.Weighted(3, 1)
 	if via == 1 {
-		cfg.Env = map[string]string{"RDPGW_SERVER__AUTHENTICATION": strings.Join(mechs, " "), "RDPGW_SERVER__HOSTS": strings.Join(cfg.Hosts, " ")}
+		cfg.Env = map[string]string{"RDPGW_SERVER__AUTHENTICATION": strings.Join(spelled, " "), "RDPGW_SERVER__HOSTS": strings.Join(cfg.Hosts, " ")}
 		if len(mechs) == 1 {
-			cfg.Env["RDPGW_SERVER__AUTHENTICATION"] = mechs[0]
+			cfg.Env["RDPGW_SERVER__AUTHENTICATION"] = spelled[0]
 		}
 		if tlsOff {
 			cfg.Env["RDPGW_SERVER__TLS"] = "disable"
